@@ -74,7 +74,18 @@ impl Builtins {
         match h {
             Hook::Import => self.import(stack, env, import_stack, pos),
             Hook::Include => self.include(stack, env, pos),
-            Hook::Assert => self.assert(stack, env),
+            Hook::Assert => {
+                if import_stack.is_empty() {
+                    self.assert(stack, env)
+                } else {
+                    // An assertion of an imported file is not one of the file
+                    // that is being tested. Imported files are evaluated once per
+                    // run, so counting it would make the verdict of a file depend
+                    // on which files were tested before it.
+                    stack.pop();
+                    Ok(())
+                }
+            }
             Hook::Convert => self.convert(stack, env, pos),
             Hook::Out => self.out(path, stack, env, pos),
             Hook::Map => self.map(stack, env, import_stack, pos),
